@@ -90,6 +90,9 @@ class Fn:
 
     def reachable(self):
         if self._reach is None:
+            if not self.blocks:
+                self._reach = set()
+                return self._reach
             seen = {0}
             q = deque([0])
             while q:
